@@ -863,7 +863,66 @@ def plant_bare_use(s, rng, gen):
     return s
 
 
-UNSAFE_EDITS = [uns_remove_constructor, uns_remove_function, uns_remove_field, uns_remove_targ, uns_change_type, uns_change_type,
+def uns_change_tag(s, rng, gen):
+    cands = [ci for ci, c in enumerate(s) if c["k"] in "tf" and c["tag"][0] == "x"]
+    if not cands:
+        return None
+    s = copy.deepcopy(s)
+    c = s[rng.choice(cands)]
+    c["tag"] = "x%08x" % ((int(c["tag"][1:], 16) + 1 + rng.below(1000)) & 0x7FFFFFFF | 1)
+    return s, {"kind": "change-tag", "comb": c["n"], "class": "tag-ignored"}
+
+
+def uns_size_bit(s, rng, gen):
+    """append a field guarded by a bit of a local # field that is used as an array size"""
+    cands = []
+    for ci, c in enumerate(s):
+        if c["k"] == "b":
+            continue
+        for fi, name in local_nat_fields(c):
+            if any(f["r"] and f["r"][0] == ("v", name) for f in c["f"]) and not c["f"][fi]["m"]:
+                free = [b for b in range(4) if b not in direct_bits(c, name)]
+                if free and not name_used_as_arg_types_only(c, name):
+                    cands.append((ci, name, free))
+    if not cands:
+        return None
+    ci, name, free = rng.choice(cands)
+    s = copy.deepcopy(s)
+    c = s[ci]
+    c["f"].append(F(fresh_field_name(c), R(rng.choice(PRIMS)), mask=(name, rng.choice(free))))
+    return s, {"kind": "mask-bit-on-size-field", "comb": c["n"], "class": "size-bit"}
+
+
+def name_used_as_arg_types_only(c, name):
+    for f in c["f"]:
+        tree = f["r"][1] if f["r"] else f["t"]
+        for p, n in nodes(tree):
+            if p and not isinstance(n, int) and n[0] == name:
+                return True
+    return False
+
+
+def uns_const_bit(s, rng, gen):
+    """append to optA a field guarded by a bit that some reference sets through an arithmetic constant"""
+    opt = [c for c in s if c["n"] == "optA"]
+    if not opt:
+        return None
+    used = direct_bits(opt[0], "n")
+    ks = []
+    for ci, sl in slots(s):
+        for p, n in nodes(get_slot(s, ci, sl)):
+            if not isinstance(n, int) and n[0] in ("optA", "OptA") and n[2] and isinstance(n[2][0], int):
+                ks.append(n[2][0])
+    bits = sorted(set(b for k in ks for b in range(32) if (k >> b) & 1 and b not in used))
+    if not bits:
+        return None
+    s = copy.deepcopy(s)
+    c = [c for c in s if c["n"] == "optA"][0]
+    c["f"].append(F(fresh_field_name(c), R("int"), mask=("n", rng.choice(bits))))
+    return s, {"kind": "mask-bit-set-by-constant", "comb": "optA", "class": "constant-bit"}
+
+
+UNSAFE_EDITS = [uns_change_tag, uns_size_bit, uns_const_bit, uns_remove_constructor, uns_remove_function, uns_remove_field, uns_remove_targ, uns_change_type, uns_change_type,
                 uns_change_type, uns_flip_bare, uns_change_repeat_scale, uns_mask_edit, uns_mask_edit, uns_append_unmasked,
                 uns_reuse_bit, uns_to_union, uns_to_union]
 
